@@ -918,7 +918,7 @@ class _NPInv:
         return M
 
 
-def body_cov(inp, mesh, kind, cls=False):
+def body_cov(inp, mesh, kind, cls=False, window=False):
     """kernel schemes, assembly only: (K) gauss_cov_matrix_from / exp_cov_matrix_from entrywise against the kernel for every pair;
     (class) the matrix handed to np.linalg.inv is that covariance and the result is coefficient * inverse(covariance)"""
     import autoarray as aa
@@ -1062,9 +1062,15 @@ def cases(tier):
             out.append(("case_history", {"mesh": m, "change": change}))
     # kernel schemes: covariance assembly for every pair / coefficient * inverse of it
     for kind in ("gauss", "exp"):
-        for m in [["rect", 3, 3], ["del", "D5"], ["sympts", 3]] + ([] if q else [["rect", 4, 4], ["del", "D9"], ["sympts", 4]]):
+        kmeshes = [["rect", 3, 3], ["del", "D5"]] + ([] if q else [["rect", 4, 4], ["rect", 3, 5], ["del", "D9"]])
+        if kind == "gauss":
+            # symbolic point coordinates: only for the Gaussian kernel (its argument is polynomial in the coordinates; the exponential
+            # kernel needs sqrt(d2_ij) == sqrt(d2_ji) for two different square-root witnesses: 13 s for 3 points, no answer for 4).
+            # Short solver timeout: on a repository that branches on the distance every decision is a non-linear feasibility query.
+            kmeshes += [["sympts", 3]] + ([] if q else [["sympts", 4]])
+        for m in kmeshes:
             for window in (False, True):
-                out.append(("case_cov", {"mesh": m, "kind": kind, "window": window}))
+                out.append(("case_cov", {"mesh": m, "kind": kind, "window": window}, {"timeout_ms": 8000} if m[0] == "sympts" else {}))
         for m in [["rect", 3, 3], ["del", "D5"]] + ([] if q else [["rect", 3, 4], ["del", "D7"]]):
             for window in (False, True):
                 out.append(("case_cov", {"mesh": m, "kind": kind, "cls": True, "window": window}))
